@@ -560,6 +560,41 @@ fn main() {
         let _ = std::fs::remove_dir_all(&dir);
     }
 
+    // ---------------------------------------------------------------- leftover temp file: an interrupted save left <path>.tmp behind (longer than
+    // the next snapshot); the next successful save must still produce exactly the new snapshot
+    let mut leftover = CaseWriter::new(&args.out, "leftover");
+    for (li, fmt) in [Fmt::FileZstd, Fmt::FileRaw, Fmt::Quant, Fmt::FileZstd, Fmt::FileRaw, Fmt::Quant].iter().enumerate() {
+        let dir = scratch.join(format!("leftover{li}"));
+        let _ = std::fs::remove_dir_all(&dir);
+        std::fs::create_dir_all(&dir).unwrap();
+        let path = dir.join("snap.bin");
+        // the interrupted save was of a LARGER store (or the leftover is arbitrary bytes)
+        let bigs = TensorStore::new();
+        for j in 0..60 { let mut d2 = Dist::default(); bigs.put(format!("user:{j}"), gen_tdata(&mut rng, 4, false, &mut d2)).unwrap(); let mut t = TensorData::new(); t.set("pad", TensorValue::Scalar(ScalarValue::String(format!("{j}").repeat(40)))); bigs.put(format!("pad:{j}"), t).unwrap(); }
+        let big_path = dir.join("big.dat");
+        save_store(&bigs, &big_path, *fmt).unwrap();
+        let junk: Vec<u8> = if li < 3 { std::fs::read(&big_path).unwrap() } else { (0..20_000).map(|_| rng.below(256) as u8).collect() };
+        let _ = std::fs::remove_file(&big_path);
+        for name in ["snap.bin.tmp", "snap.tmp"] { std::fs::write(dir.join(name), &junk).unwrap(); }
+        let small = TensorStore::new();
+        let mut t = TensorData::new();
+        t.set("gen", TensorValue::Scalar(ScalarValue::Int(li as i64)));
+        small.put("marker", t).unwrap();
+        let res = save_store(&small, &path, *fmt).and_then(|_| load_store(&path, *fmt));
+        let file_len = std::fs::metadata(&path).map(|m| m.len()).unwrap_or(0);
+        let want = { let ref_path = dir.join("ref.dat"); save_store(&small, &ref_path, *fmt).unwrap(); let d = dump_router(load_store(&ref_path, *fmt).unwrap().router()); (d, std::fs::metadata(&ref_path).map(|m| m.len()).unwrap_or(0)) };
+        let fname = ["file+zstd", "file", "quantising"][li % 3];
+        leftover.push(&format!("{li}"), &format!("leftover#{li} fmt={fname} stale temp of {} bytes ({}), new snapshot {} bytes", junk.len(), if li < 3 { "a complete larger snapshot" } else { "arbitrary bytes" }, want.1), true);
+        dist.hit("leftover.case");
+        match res {
+            Ok(l) => if !dump_bits_eq(&dump_router(l.router()), &want.0) || file_len != want.1 {
+                hits.push("stale-temp-tail", &format!("{fname}: <path>.tmp of {} bytes left by an interrupted save, then a successful save of a {}-byte snapshot: the file at the path has {file_len} bytes and loads as a different store", junk.len(), want.1), json!({"kind": "leftover", "index": li}));
+            },
+            Err(e) => hits.push("stale-temp-tail", &format!("{fname}: <path>.tmp of {} bytes left by an interrupted save, then a successful save of a {}-byte snapshot: the file at the path has {file_len} bytes and does not load: {e}", junk.len(), want.1), json!({"kind": "leftover", "index": li, "fmt": fname})),
+        }
+        let _ = std::fs::remove_dir_all(&dir);
+    }
+
     // ---------------------------------------------------------------- entry points: every public save/load pair at TensorStore level,
     // over stores holding every key class; scan, get AND exists are compared after the load (implementation only)
     let mut entry = CaseWriter::new(&args.out, "entry");
@@ -842,10 +877,10 @@ fn main() {
         &args.out,
         json!({
             "property": "C07", "seed": args.seed, "tier": args.tier,
-            "kinds": [hdr.summary(), rt.summary(), q.summary(), crash.summary(), entry.summary(), observe.summary(), slabs.summary(), big.summary(), tt.summary()],
+            "kinds": [hdr.summary(), rt.summary(), q.summary(), crash.summary(), leftover.summary(), entry.summary(), observe.summary(), slabs.summary(), big.summary(), tt.summary()],
             "distribution": dist.json(),
             "hits": hits.0,
-            "nontrivial_rule": "rt/q: the store holds at least one key; hdr: entry count > 0; crash: an older snapshot existed at the path; slabs: more than six populated views; big: non-empty; tt: always; entry: always; observe: the reader polled more often than the writer saved",
+            "nontrivial_rule": "rt/q: the store holds at least one key; hdr: entry count > 0; crash: an older snapshot existed at the path; slabs: more than six populated views; big: non-empty; tt: always; entry: always; leftover: always; observe: the reader polled more often than the writer saved",
         }),
     );
 }
